@@ -57,3 +57,24 @@ instance : Scalar Float where
 def mulMask {α : Type} [Scalar α] (x : α) (m : Bool) : α := x * (if m then 1.0 else 0.0)
 
 end Scalar
+
+/-- exact integer instance, used to run the lattice algorithms on integer-valued stub maps
+(transcendental operations are not meaningful here and return 0) -/
+instance : Scalar Int where
+  ofScientific m s e := if s then ((m / 10 ^ e : Nat) : Int) else ((m * 10 ^ e : Nat) : Int)
+  sin _ := 0
+  cos _ := 0
+  tan _ := 0
+  sinh _ := 0
+  cosh _ := 0
+  sqrt _ := 0
+  exp _ := 0
+  log _ := 0
+  atan _ := 0
+  asin _ := 0
+  abs x := Int.ofNat x.natAbs
+  atan2 _ _ := 0
+  ltb a b := decide (a < b)
+  leb a b := decide (a ≤ b)
+  eqb a b := decide (a = b)
+  ofNat n := (n : Int)
